@@ -987,17 +987,31 @@ func rawOracle(cfg config, stream []byte, pattern []int, got []delivery, status 
 	for _, d := range eMax {
 		maxPer[d.ch] = append(maxPer[d.ch], d.b)
 	}
-	if terminal != "" && status == "err:eof" {
-		// the receiver read the whole stream without failing although one frame had to close it
+	// did the receiver go on after the frame that had to close the connection?  Either it read the
+	// whole stream (status eof), or it delivered more than what precedes that frame while agreeing
+	// with everything that precedes it.
+	beyond, inconsistent := false, false
+	for ch, g := range gotPer {
+		if !isPrefix(g, maxPer[ch]) {
+			if isPrefix(maxPer[ch], g) {
+				beyond = true
+			} else {
+				inconsistent = true
+			}
+		}
+	}
+	if inconsistent || (beyond && terminal == "") {
+		for ch, g := range gotPer {
+			if !isPrefix(g, maxPer[ch]) && !(terminal != "" && isPrefix(maxPer[ch], g)) {
+				return fmt.Sprintf("VIOL:partial-or-corrupt-delivery ch=%d", ch)
+			}
+		}
+	}
+	if terminal != "" && (status == "err:eof" || beyond) {
 		if terminal == "malformed" || terminal == "bad-length" || terminal == "oversize" {
 			return "VIOL:malformed-accepted " + terminal
 		}
 		return "VIOL:undeliverable-accepted " + terminal
-	}
-	for ch, g := range gotPer {
-		if !isPrefix(g, maxPer[ch]) {
-			return fmt.Sprintf("VIOL:partial-or-corrupt-delivery ch=%d", ch)
-		}
 	}
 	for ch, m := range minPer {
 		if !isPrefix(m, gotPer[ch]) {
@@ -1654,9 +1668,9 @@ func rawCases(o *kit.Out, r *kit.Rand, n int) {
 
 func generate(o *kit.Out, r *kit.Rand, tier string) {
 	boundary(o)
-	nPair, nGated, nRaw := 120, 40, 60
+	nPair, nGated, nRaw := 400, 150, 200
 	if tier == "thorough" {
-		nPair, nGated, nRaw = 1500, 500, 800
+		nPair, nGated, nRaw = 5000, 2000, 3000
 	}
 	rp, rg, rr := r.Fork(), r.Fork(), r.Fork()
 	for i := 0; i < nPair; i++ {
